@@ -29,12 +29,40 @@ END = {"ev": "end", "a": "", "id": "", "k": 0, "n": 0, "code": 0}
 
 
 def own_findings():
-    p = os.path.join(lib.VERIF, "findings.d", "C19.json")
+    # C19_FINDINGS: an alternative fragment (used to try findings.d/C19.json.after-fix against a worktree with the fixes)
+    p = os.environ.get("C19_FINDINGS") or os.path.join(lib.VERIF, "findings.d", "C19.json")
     try:
         with open(p) as f:
             return json.load(f)
     except FileNotFoundError:
         return []
+
+
+def fixes_in_code():
+    """Which repairs the code under test has = the defects whose entries in the findings fragment are `fixed`.
+    The generator's model of the code (WSServerImpl, Impl = "pinned", constant Fixes) follows it, so that the
+    generated schedules stay realisable; the acceptors do not change."""
+    st = {}
+    for k in own_findings():
+        d = k.get("defect")
+        if d:
+            st.setdefault(d, set()).add(k.get("status"))
+    return sorted(d for d, v in st.items() if v == {"fixed"} and d in ("D8a", "D8b", "F4", "F5"))
+
+
+def gen_cfg_dir(ctx, fixes):
+    """Copies of the generator configurations with Fixes set (later spec dirs override earlier ones in ctx.tlc)."""
+    d = ctx.path("gencfg")
+    os.makedirs(d, exist_ok=True)
+    val = "{%s}" % ", ".join('"%s"' % f for f in fixes)
+    src = os.path.join(lib.SPEC, "conc")
+    for fn in os.listdir(src):
+        if fn.startswith("Gen_WSServer_") and fn.endswith(".cfg"):
+            with open(os.path.join(src, fn)) as f:
+                txt = f.read()
+            with open(os.path.join(d, fn), "w") as f:
+                f.write(re.sub(r"Fixes = \{[^}]*\}", "Fixes = " + val, txt))
+    return d
 
 
 def norm_last(last):
@@ -177,13 +205,16 @@ def binding_selfcheck(ctx, rows):
 def run(ctx):
     rng = random.Random(ctx.seed)
     quick = ctx.quick()
-    # known findings: known-findings.json plus this property's own fragment (merged by the coordinator later)
-    known = list(ctx.known())
-    have = {(k.get("property"), k.get("key")) for k in known}
-    for k in own_findings():
-        if (k.get("property"), k.get("key")) not in have:
-            known.append(k)
+    # known findings: this property's own fragment is authoritative for its keys (the coordinator merges it into
+    # known-findings.json / swaps it for the .after-fix variant when the repairs are committed)
+    own = own_findings()
+    own_keys = {k.get("key") for k in own}
+    known = [k for k in ctx.known() if not (k.get("property") == "C19" and k.get("key") in own_keys)] + own
     ctx._known = known
+    fixes = fixes_in_code()
+    gdirs = ["conc", gen_cfg_dir(ctx, fixes)]
+    if fixes:
+        ctx.log("the code under test is modelled with the repairs %s" % fixes)
     built = ctx.build("wsserver")
     # private copy: other checks / mutant runs clean the shared build directories while this one is running
     binary = ctx.path("wsserver-bin")
@@ -204,7 +235,7 @@ def run(ctx):
                              tag="mc-" + c) for c in mcs}
         negs = {c: ex.submit(ctx.tlc, "conc", "MC_WSServer", "MC_WSServer_%s_pinned.cfg" % c, workers=2, timeout=600, count=False,
                              tag="mc-negative-" + c) for c in ("tws", "gws")}
-        gens = {p: ex.submit(ctx.tlc, "conc", "Gen_WSServer", "Gen_WSServer_%s_3.cfg" % p, workers=2, timeout=900, deadlock=False,
+        gens = {p: ex.submit(ctx.tlc, gdirs, "Gen_WSServer", "Gen_WSServer_%s_3.cfg" % p, workers=2, timeout=900, deadlock=False,
                              tag="gen-%s-3" % p) for p in ("tws", "gws")}
         for c, f in futs.items():
             r = f.result()
@@ -276,7 +307,7 @@ def run(ctx):
         ctx.log("%s: %d schedules replayed with the real ExecutorV2" % (p, len(v2)))
         # longer sequences (4-5 client messages, <= 3 engine events): sampled
         num = (3000 if quick else 30000)
-        g5 = ctx.tlc("conc", "Gen_WSServer", "Gen_WSServer_%s_5.cfg" % p, workers=1, simulate=num, depth=9, seed=ctx.seed, timeout=1800,
+        g5 = ctx.tlc(gdirs, "Gen_WSServer", "Gen_WSServer_%s_5.cfg" % p, workers=1, simulate=num, depth=9, seed=ctx.seed, timeout=1800,
                      deadlock=False, tag="gen-%s-5-simulate" % p)
         if not g5.ok:
             print(g5.out[-3000:])
@@ -295,7 +326,7 @@ def run(ctx):
             cases.append(make_case("%s-s-%06d" % (p, i), p, "tc" if i % 2 == 0 else "conn", st, rng))
     if not quick:
         # graphql-transport-ws: every schedule with <= 4 client messages and <= 2 engine events
-        g4 = ctx.tlc("conc", "Gen_WSServer", "Gen_WSServer_tws_4.cfg", workers=6, timeout=1800, deadlock=False, tag="gen-tws-4")
+        g4 = ctx.tlc(gdirs, "Gen_WSServer", "Gen_WSServer_tws_4.cfg", workers=6, timeout=1800, deadlock=False, tag="gen-tws-4")
         if not g4.ok:
             raise lib.Inconclusive("generator Gen_WSServer_tws_4 failed: %s" % g4.error)
         uniq = {}
